@@ -1,3 +1,3 @@
 package doltdb
 
-const verifBoundSpec = 6
+const verifBoundSpec = 5
